@@ -383,13 +383,20 @@ class CallListerVisitor(ast.NodeVisitor):
                 marker.tainted = node
         for arg in node.args + [
                 kw.value for kw in node.keywords if kw.arg is not None]:
-            if isinstance(arg, ast.Name):
-                # only the enclosing function's own arguments: other names
-                # are still to be resolved when the call is processed
-                if isinstance(self.namespace.get(arg.id, None), Arg):
-                    self.visit_Name(arg)
-            elif isinstance(arg, ast.Call):
-                self.expose_nested_Call(arg)
+            self.expose_nested_argument(arg)
+
+    def expose_nested_argument(self, arg):
+        if isinstance(arg, ast.Name):
+            # only the enclosing function's own arguments: other names
+            # are still to be resolved when the call is processed
+            if isinstance(self.namespace.get(arg.id, None), Arg):
+                self.visit_Name(arg)
+        elif isinstance(arg, ast.Call):
+            self.expose_nested_Call(arg)
+        elif not isinstance(arg, (ast.Starred, ast.Lambda)):
+            # eg. [kwargs], kwargs or None, {'k': kwargs}
+            for child in ast.iter_child_nodes(arg):
+                self.expose_nested_argument(child)
 
     def visit_Call(self, node):
         if self.namespace.parent is None:
